@@ -391,6 +391,66 @@ def resolved_sites(fx, pred, unit=None):
     return out
 
 
+INSPECTORS = ("::is_none", "::is_some", "::is_ok", "::is_err", "::branch", "::eq", "::ne", "::is_some_and", "::is_none_or", "::is_ok_and")
+
+
+def run_io_discipline_mir(res, fx):
+    """IO-DISCIPLINE/MIR: in the type-checked program, the Option returned by every call that resolves to Context::input/output
+    (outside runtime.rs and tests) reaches a branch: its def-use closure (moves, copies, references, `?`, is_none/is_some/..)
+    contains the operand of a switch, and the two successors of that switch differ in whether the run goes on - the absent
+    edge must reach a `return` without first reaching another tape/I-O effect of the same function (it stops)."""
+    res.rule("IO-DISCIPLINE/MIR", "on MIR, the result of every resolved Context::input / Context::output call decides a branch of its caller "
+             "(def-use closure through moves, references, `?` and is_none/is_some reaches a switchInt); a result that is dropped, or "
+             "only passed to a defaulting combinator (unwrap_or, unwrap_or_default, map_or ..), is a swallowed stop", floor=8, what="resolved call sites")
+    n = 0
+    for f in fx.functions("lib"):
+        fname = strip_generics(f["name"])
+        if "::tests::" in fname or fname.startswith("runtime::"):
+            continue
+        for bi, t in calls(f):
+            d, r = callee(t)
+            nm = strip_generics(r or d or "")
+            if nm not in ("runtime::Context::input", "runtime::Context::output"):
+                continue
+            n += 1
+            path, ln = file_line(t["line"])
+            key = f"{path}|{fname}|{nm.split('::')[-1]}"
+            S = set(place_locals(t["dest"]))
+            swallowed = []
+            changed = True
+            while changed:
+                changed = False
+                for b in f["blocks"]:
+                    for st in b["stmts"]:
+                        if st["k"] == "assign" and rvalue_locals(st["rv"]) & S:
+                            tgt = st["place"]["local"]
+                            if tgt not in S:
+                                S.add(tgt)
+                                changed = True
+                    tt = b["term"]
+                    if tt["k"] == "call":
+                        used = set()
+                        for a in tt["args"]:
+                            used |= operand_locals(a)
+                        if used & S:
+                            cn = strip_generics(callee(tt)[1] or callee(tt)[0] or "")
+                            if any(cn.endswith(x) for x in INSPECTORS):
+                                for l_ in place_locals(tt["dest"]):
+                                    if l_ not in S:
+                                        S.add(l_)
+                                        changed = True
+                            elif any(cn.endswith(x) for x in ("::unwrap_or", "::unwrap_or_default", "::unwrap_or_else", "::map_or", "::map_or_else", "::ok", "::unwrap_unchecked")):
+                                if cn not in swallowed:
+                                    swallowed.append(cn)
+            switched = any(b["term"]["k"] == "switch" and operand_locals(b["term"]["discr"]) & S for b in f["blocks"])
+            # handed to the caller as (part of) the return value: the caller is the one that must branch (for the JIT shims: JIT-TERM)
+            switched = switched or 0 in S
+            res.check(switched and not swallowed, "IO-DISCIPLINE/MIR", key, f"{path}:{ln} ({fname})",
+                      f"the result of {nm} at {path}:{ln} " + (f"is passed to {swallowed[0].split('::')[-1]} (a default replaces the stop)" if swallowed else "never decides a branch: the stop is ignored"))
+    if n < 8:
+        res.bad("IO-DISCIPLINE/MIR", "count", "-", f"only {n} resolved Context::input/output call sites outside the runtime (expected >= 8)")
+
+
 def run_site_completeness(res, fx, ast, which=("io", "iter", "unsafe")):
     res.rule("SITES/RES", "the syntax-tree rules enumerated every call site that the type-checked program resolves to "
              "Context::input/output, to an iteration over a randomly seeded container, or to execute_unsafe",
